@@ -139,6 +139,10 @@ func errClass(msg string) string {
 func (w *worker) judgeC09(v *verdict, p *harness.Pkg, op *harness.Op, rp *harness.ReqPlan, o *harness.ReqObs, validate bool) {
 	const exp = "handler's parsed parameters == parameters sent through the generated client; wire request valid for the operation"
 	if o.CallerPanic != "" {
+		if sim.HarnessPanic(o.CallerPanic) {
+			v.harnessErr = "panic inside the harness (caller): " + clipStr(o.CallerPanic, 2000)
+			return
+		}
 		v.violate("req:client-panic:"+frameOf(p, o.CallerPanic), clipStr(o.CallerPanic, 600), exp)
 		return
 	}
@@ -152,6 +156,8 @@ func (w *worker) judgeC09(v *verdict, p *harness.Pkg, op *harness.Op, rp *harnes
 		switch {
 		case d.ReadErr != "":
 			v.violate("req:wire:unparseable", fmt.Sprintf("delivery %d: http.ReadRequest failed on the client's bytes: %s", di, d.ReadErr), exp)
+		case (d.Panic != "" || d.ParsePanic != "") && sim.HarnessPanic(d.PanicStack):
+			v.harnessErr = "panic inside the harness: " + d.Panic + d.ParsePanic + "\n" + clipStr(d.PanicStack, 2000)
 		case d.Panic != "" || d.ParsePanic != "":
 			v.violate("req:server-panic:"+frameOf(p, d.PanicStack), d.Panic+d.ParsePanic, exp)
 		case d.Handler == "":
@@ -318,6 +324,10 @@ func statusClass(kind string) string {
 func judgeC10(v *verdict, p *harness.Pkg, op *harness.Op, rp *harness.ReqPlan, o *harness.ReqObs, config int) {
 	const exp = "client returns the same response kind with equal status, headers and body; undocumented status -> default kind or error"
 	if o.CallerPanic != "" {
+		if sim.HarnessPanic(o.CallerPanic) {
+			v.harnessErr = "panic inside the harness (caller): " + clipStr(o.CallerPanic, 2000)
+			return
+		}
 		v.violate("resp:client-panic:"+frameOf(p, o.CallerPanic), clipStr(o.CallerPanic, 600), exp)
 		return
 	}
@@ -453,6 +463,10 @@ func (w *worker) runC14(p *harness.Pkg, t *tape.Tape, logOn bool) *verdict {
 			}
 			if d.ParseErr != "" {
 				v.counters["parse_returned_error"]++
+			}
+			if (d.Panic != "" || d.ParsePanic != "") && sim.HarnessPanic(d.PanicStack) && v.harnessErr == "" {
+				v.harnessErr = "panic inside the harness: " + d.Panic + d.ParsePanic + "\n" + clipStr(d.PanicStack, 2000)
+				continue
 			}
 			if d.Panic != "" {
 				v.violate("panic:"+frameOf(p, d.PanicStack), "panic escaped API.ServeHTTP: "+clipStr(d.Panic, 300)+"\n"+clipStr(d.PanicStack, 1500), exp)
